@@ -35,11 +35,25 @@ EmitFOK == LET args == Tail(e.a)
                           ELSE s1 = seq0
               /\ e.o[3] = 0 /\ e.o[4] = (s1 + 1) % 65536
 
+(* ------------------------------------------------------------------ helpers outside the listed properties (extra X09)
+   isect a1 s1 a2 s2 | address size nonempty   intersection of two address ranges (size 0: none); the library's
+                                               regp_empty_intersection() answers TRUE exactly when the intersection is NOT empty
+   pred type | valid response read-request write-request read-response write-response meta    frame classification   *)
+IsectObs(a1, s1, a2, s2) == LET lo == IF a1 > a2 THEN a1 ELSE a2
+                                h1 == a1 + s1 - 1
+                                h2 == a2 + s2 - 1
+                                hi == IF h1 < h2 THEN h1 ELSE h2
+                            IN IF hi >= lo THEN <<lo, hi - lo + 1, 1>> ELSE <<0, 0, 0>>
+PredObs(ty) == <<IF ty = 99 THEN 0 ELSE 1,          \* (99 stands for RP_FRAME_INVALID)
+                 IF ty \in {T_RRESP, T_WRESP} THEN 1 ELSE 0,
+                 IF ty = T_RREQ THEN 1 ELSE 0, IF ty = T_WREQ THEN 1 ELSE 0, IF ty = T_RRESP THEN 1 ELSE 0, IF ty = T_WRESP THEN 1 ELSE 0,
+                 IF ty = T_META THEN 1 ELSE 0>>
+
 (* ------------------------------------------------------------------ rx events (C06, C07, C09) *)
 MustFail == e.a[1] = 1        \* set by the generator for corruptions inside the family the CRC guarantees to be caught
                               \* (3 = burst across a checksum-field boundary: claimed by C07, not guaranteed - open finding)
 RTr == e.a[2]
-Cfg == [tr |-> e.a[2], mem16 |-> e.a[3] = 1, cap |-> e.a[4]]
+Cfg == [tr |-> e.a[2], mem16 |-> e.a[3] >= 1, cap |-> e.a[4], void |-> e.a[3] = 2]       \* memory 0: 8 bit, 1: 16 bit, 2: none attached (16-bit default)
 AllocFail == e.a[5] % 2 = 1        \* (bit 1 of the field selects the slab-style allocator in the harness)
 Verdict == e.a[6]
 VAddr == <<e.a[7], e.a[8]>>
@@ -73,6 +87,8 @@ TNext == /\ l <= Len(TraceLog) /\ l' = l + 1
               [] e.op = "rx" -> RxOK /\ e.asan = 0
               [] e.op = "rxn" -> RxnOK /\ e.asan = 0
               [] e.op = "rxopen" -> TRUE
+              [] e.op = "isect" -> e.o = IsectObs(e.a[1], e.a[2], e.a[3], e.a[4])
+              [] e.op = "pred" -> e.o = PredObs(e.a[1])
               [] OTHER -> FALSE
          /\ UNCHANGED <<vars, ev>>
 TSpec == TInit /\ [][TNext]_<<vars, ev, l>>
